@@ -64,21 +64,21 @@ func init() {
 	}
 
 	// math
-	f1 := func(op string) modelFn {
-		return func(x *Exec, s *State, fn *ssa.Function, args []Val) Val {
-			return fltVal("(" + op + " " + args[0].L[0] + ")")
-		}
+	m["math.Max"] = func(x *Exec, s *State, fn *ssa.Function, args []Val) Val {
+		return fltVal(x.nameF(s, fctx{s}.max(args[0].L[0], args[1].L[0])))
 	}
-	f2 := func(op string) modelFn {
-		return func(x *Exec, s *State, fn *ssa.Function, args []Val) Val {
-			return fltVal("(" + op + " " + args[0].L[0] + " " + args[1].L[0] + ")")
-		}
+	m["math.Min"] = func(x *Exec, s *State, fn *ssa.Function, args []Val) Val {
+		return fltVal(x.nameF(s, fctx{s}.min(args[0].L[0], args[1].L[0])))
 	}
-	m["math.Max"] = f2("fmax")
-	m["math.Min"] = f2("fmin")
-	m["math.Ceil"] = f1("fceil")
-	m["math.Floor"] = f1("ffloor")
-	m["math.Trunc"] = f1("ftrunc")
+	m["math.Ceil"] = func(x *Exec, s *State, fn *ssa.Function, args []Val) Val {
+		return fltVal(fctx{s}.ceil(args[0].L[0]))
+	}
+	m["math.Floor"] = func(x *Exec, s *State, fn *ssa.Function, args []Val) Val {
+		return fltVal(fctx{s}.floor(args[0].L[0]))
+	}
+	m["math.Trunc"] = func(x *Exec, s *State, fn *ssa.Function, args []Val) Val {
+		return fltVal(fctx{s}.trunc(args[0].L[0]))
+	}
 	m["math.Sqrt"] = func(x *Exec, s *State, fn *ssa.Function, args []Val) Val {
 		x.usedSqrt = true
 		x.note("stub: math.Sqrt axiomatised (A6)")
@@ -91,14 +91,14 @@ func init() {
 	}
 	m["math.Pow"] = func(x *Exec, s *State, fn *ssa.Function, args []Val) Val {
 		if args[1].L[0] == "(fin 2.0)" {
-			return fltVal("(fmul " + args[0].L[0] + " " + args[0].L[0] + ")")
+			return fltVal(fctx{s}.mul(args[0].L[0], args[0].L[0]))
 		}
 		x.note("stub: math.Pow with non-constant exponent is unconstrained")
 		return x.freshVal(s, types.Typ[types.Float64], "pow")
 	}
 	m["math.Abs"] = func(x *Exec, s *State, fn *ssa.Function, args []Val) Val {
 		a := args[0].L[0]
-		return fltVal("(ite (flt " + a + " (fin 0.0)) (fneg " + a + ") " + a + ")")
+		return fltVal("(ite " + fctx{s}.lt(a, "(fin 0.0)") + " " + fctx{s}.neg(a) + " " + a + ")")
 	}
 
 	// math/rand
